@@ -54,6 +54,10 @@ def render_expr(e):
     raise ValueError(f"bad expr {e!r}")
 
 
+PROSE = ["this isn't compiled any more", 'TODO: say "hello', "int big = 8'100;", "doesn't work, don't enable",
+         "see the user's guide"]
+
+
 def render_items(items, lang, fid, out):
     """Append (kind, text) for every physical line. kind: code|dir|blank|comment."""
     for it in items:
@@ -61,7 +65,11 @@ def render_items(items, lang, fid, out):
         if t == "code":
             for _ in range(it[1]):
                 ln = len(out) + 1
-                if lang == "f90":
+                if len(it) > 2 and lang != "f90":
+                    # free text where a compiler never looks (a disabled block): prose with an apostrophe, an open
+                    # quote, a C++14 digit separator
+                    out.append(("code", PROSE[it[2] % len(PROSE)]))
+                elif lang == "f90":
                     out.append(("code", f"      x{fid}_{ln} = 1"))
                 else:
                     out.append(("code", f"int F{fid}_L{ln};"))
@@ -148,8 +156,11 @@ def file_text(world, path):
     return "".join(t + "\n" for t in lines)
 
 
+TOPREL = "@TOPREL@"     # the scratch top as seen from the file system root (no leading slash)
+
+
 def subst(s, top):
-    return s.replace(TOP, top)
+    return s.replace(TOP, top).replace(TOPREL, top.lstrip("/"))
 
 
 def entry_argv(entry):
@@ -192,11 +203,21 @@ def materialise(world, top, schedule=None):
     for d in world.get("dirs", []):
         os.makedirs(os.path.join(top, d), exist_ok=True)
     paths = order_by(sorted(world["files"]), schedule.get("creation_order"))
+    first_name = {}     # hard-link groups: original path -> the name of the group created first
     for p in paths:
         full = os.path.join(top, p)
         os.makedirs(os.path.dirname(full), exist_ok=True)
+        text = file_text(world, p)
+        if world.get("hardlink_copies"):
+            # byte-identical copies are further NAMES of one inode (a copy and a hard link are the same thing to
+            # anything that reads files; only st_nlink/st_ino tell them apart)
+            grp = world["files"][p].get("copy_of", p)
+            if grp in first_name and file_text(world, first_name[grp]) == text:
+                os.link(os.path.join(top, first_name[grp]), full)
+                continue
+            first_name.setdefault(grp, p)
         with open(full, "w", newline="") as f:
-            f.write(file_text(world, p))
+            f.write(subst(text, top))      # (an include directive may spell an absolute path)
     for l in world.get("links", []):
         full = os.path.join(top, l["path"])
         os.makedirs(os.path.dirname(full), exist_ok=True)
